@@ -485,6 +485,15 @@ def _routing(repo, rep):
                   construct="content-routing-only-escape:" + what, where=wh,
                   detail="also conditioned on %s" % others)
     if q:
+        # (... and on nothing at run time either: the call is a statement
+        # of its fragment, not one arm of a test on the value's type -- a
+        # fast path in front of it decides with its own idea of 'number')
+        qnode = L.frag_find(q[2], "_N = __quote(_N, _Q, _E, _D, _M)")[0][0]
+        rep.check(q[2].tree is not None and any(
+            st is qnode for st in getattr(q[2].tree, "body", [])), "R02.2",
+            site, "every value of escaped content goes through the escaping "
+            "routine (no shortcut on the value's type in front of it)",
+            construct="content-quote-unconditional", where=wh)
         qarg = q[3]["_Q"]
         rep.check(isinstance(qarg, ast.Constant) and qarg.value is None,
                   "R02.2", site, "element text is escaped without a quote "
